@@ -483,7 +483,10 @@ Proof. destruct (name_idx_cons p i) as [c [r ->]]. discriminate. Qed.
 
 Lemma not_varies_child d i : bstarts (unbs "VARIES") d = false -> upper d = d ->
   valid_child_name (Some (name_idx d i)) (Some (unbs "VARIES")) = false.
-Proof. intros H Hu. rewrite valid_child_name_idx, Hu. change (upper (unbs "VARIES")) with (unbs "VARIES"). now apply not_varies_name. Qed.
+Proof.
+  intros H Hu. destruct (Nat.eq_dec i 0) as [->|Hi]; [apply valid_child_name_idx_0|].
+  rewrite valid_child_name_idx, Hu by exact Hi. change (upper (unbs "VARIES")) with (unbs "VARIES"). now apply not_varies_name.
+Qed.
 
 (* parse_subcomponents below a component of the complex datatype d *)
 Lemma parse_subcomponents_aux_S d st l : ost_canC t st -> base (Some d) = false ->
